@@ -101,7 +101,9 @@ def cases(tier, seed):
     out = []
     # (the last three boxes have a bound a hair - far less than the de-duplication tolerance - INSIDE a lattice point: a
     # candidate on that lattice point is outside the box by 5e-8 .. 3e-7)
-    for box in ([-2, 2], [-1, 1], [0, 2], [-2, 2 - 1e-7], [-1 + 3e-7, 1], [5e-8, 2 - 5e-8]):
+    for box in ([-2, 2], [-1, 1], [0, 2], [-2, 2 - 1e-7], [-1 + 3e-7, 1], [5e-8, 2 - 5e-8],
+                # (and a hair of 5e-11, 1e-13 and ONE unit in the last place: no tolerance on the box is documented)
+                [-2, 2 - 5e-11], [-1 + 1e-13, 1], [float(np.nextafter(0.0, 1.0)), float(np.nextafter(2.0, 0.0))]):
         for proj in (True, False):
             for cons in (False, True):
                 out.append({"kind": "lattice", "D": 1, "box": box, "proj": proj, "cons": cons})
